@@ -281,6 +281,30 @@ pub fn clone_events<const N: usize>() {
     std::mem::forget(c);
 }
 
+/// The same question on a CONCRETE short history (public API only, log lengths concrete, one
+/// symbolic choice: whether the logs were cleared in between): cheap enough to stay decidable
+/// whatever containers a changed `clone` builds its logs with.
+pub fn clone_events_api() {
+    let mut world = WE::with_capacity(WECapacity { arch_one: 2, arch_two: 2, arch_three: 2 });
+    let a = world.create::<ArchOne>((EA(1),));
+    let _b = world.create::<ArchOne>((EA(2),));
+    let t = world.create::<ArchTwo>((EA(3), EB(0)));
+    if sym::any_bool() {
+        world.clear_events();
+    }
+    assert!(world.destroy(a).is_some());
+    assert!(world.destroy(t.into_any()).is_some());
+    let _n = world.create::<ArchThree>((EC,));
+    let c = world.clone();
+    assert!(c.iter_created().eq(world.iter_created()), "clone reports other pending created-events than the original");
+    assert!(c.iter_destroyed().eq(world.iter_destroyed()), "clone reports other pending destroyed-events than the original");
+    assert!(world.iter_destroyed().count() == 2 && c.iter_destroyed().count() == 2, "two destructions are pending in both worlds");
+    assert!(c.iter_created().count() == world.iter_created().count());
+    cover!(world.iter_created().count() == 1, "logs cleared in between: pending created-events differ from the live rows");
+    std::mem::forget(world);
+    std::mem::forget(c);
+}
+
 /// World-level iterators over three archetypes with symbolic log lengths 0..=2 each
 /// (including empty logs at the front, in the middle and at the end): exactly the
 /// concatenation, exact size_hint at every position.
@@ -503,6 +527,7 @@ harness! { fn c17_iter_destroy_2() unwind(7) { log_iter_destroy::<2>() } }
 harness! { fn c17_clear_arch_clone_2() unwind(6) { clear_and_clone::<2>(false) } }
 harness! { fn c17_clear_world_clone_1() unwind(6) { clear_and_clone::<1>(true) } }
 harness! { fn c17_clone_events_2() unwind(6) { clone_events::<2>() } }
+harness! { fn c17_clone_events_api() unwind(8) { clone_events_api() } }
 harness! { fn c17_world_iter_created() unwind(9) { world_iterators(false) } }
 harness! { fn c17_world_iter_destroyed() unwind(9) { world_iterators(true) } }
 harness! { fn c17_world_iter_nth_created() unwind(9) { world_iterator_methods::<0>(false) } }
